@@ -74,13 +74,14 @@ fn ebnf_space(tier: Tier, lalr: bool) -> Vec<Gram> {
     let mut v = vec![];
     match tier {
         Tier::Quick => {
-            v.extend(enum_ebnf(5, 2, 2, false, lalr));
-            v.extend(enum_ebnf(4, 2, 1, true, lalr));
-        }
-        Tier::Thorough => {
             v.extend(enum_ebnf(6, 3, 2, false, lalr));
             v.extend(enum_ebnf(5, 2, 3, false, lalr));
             v.extend(enum_ebnf(5, 2, 2, true, lalr));
+        }
+        Tier::Thorough => {
+            v.extend(enum_ebnf(7, 3, 2, false, lalr));
+            v.extend(enum_ebnf(6, 3, 3, false, lalr));
+            v.extend(enum_ebnf(6, 2, 2, true, lalr));
         }
     }
     // name-collision variants: the second non-terminal is named like a helper parol would create
@@ -260,6 +261,77 @@ fn eval_c10(case: &Case, acc: &Acc) -> Vec<Violation> {
     }
     if acc.want_sample() && changed && nts1.len() >= 3 {
         acc.sample(json!({"grammar": g.short(), "before": parol_cfg_text(&cfg0), "after": parol_cfg_text(&fact)}));
+    }
+    out
+}
+
+/// S with several groups of alternatives that share a first terminal (forces several factoring
+/// passes on one non-terminal and suffix-name generation with numbered names)
+fn prefix_group_grammars(tier: Tier) -> Vec<Gram> {
+    // terminals: a b c = group prefixes, d e = suffix terminals, f = body of the second nt
+    let menu: Vec<Seq> = vec![vec![], vec![Fac::T(3)], vec![Fac::T(4)], vec![Fac::N(1)], vec![Fac::T(3), Fac::T(4)], vec![Fac::T(3), Fac::N(1)]];
+    let mut member_sets: Vec<Vec<Seq>> = vec![];
+    for i in 0..menu.len() {
+        for j in i + 1..menu.len() {
+            member_sets.push(vec![menu[i].clone(), menu[j].clone()]);
+            if tier == Tier::Thorough {
+                for l in j + 1..menu.len() {
+                    member_sets.push(vec![menu[i].clone(), menu[j].clone(), menu[l].clone()]);
+                }
+            }
+        }
+    }
+    let mut out = vec![];
+    let names = ["A", "SSuffix", "SSuffix0", "SSuffix1"];
+    for g in 2..=3usize {
+        let mut idx = vec![0usize; g];
+        loop {
+            // build
+            let mut alts: Alts = vec![];
+            for (gi, mi) in idx.iter().enumerate() {
+                for m in &member_sets[*mi] {
+                    let mut s = vec![Fac::T(gi as u8)];
+                    s.extend(m.iter().cloned());
+                    alts.push(s);
+                }
+            }
+            let uses_a = alts.iter().any(|s| s.contains(&Fac::N(1)));
+            // quick tier: a residue class of the 3-group product
+            let key: usize = idx.iter().enumerate().map(|(i, x)| (i + 1) * x).sum();
+            if !(tier == Tier::Quick && g == 3 && key % 5 != 0) {
+                for (ni, name) in names.iter().enumerate() {
+                    if !uses_a && ni > 0 && tier == Tier::Quick {
+                        // the second non-terminal must exist (name clash) but need not be used;
+                        // unreachable non-terminals are fine for the public left_factor
+                    }
+                    let mut gr = Gram::simple(2, 6, vec![(0, alts.clone()), (1, vec![vec![Fac::T(5)]])], false);
+                    gr.nts[1] = name.to_string();
+                    if !uses_a {
+                        // keep the second non-terminal reachable through an extra alternative
+                        gr.prods[0].1.push(vec![Fac::T(6), Fac::N(1)]);
+                        gr.terms.push("'g'".into());
+                        gr.term_text.push("g".into());
+                    }
+                    out.push(gr);
+                }
+            }
+            // next
+            let mut i = 0;
+            loop {
+                idx[i] += 1;
+                if idx[i] < member_sets.len() {
+                    break;
+                }
+                idx[i] = 0;
+                i += 1;
+                if i == g {
+                    break;
+                }
+            }
+            if i == g {
+                break;
+            }
+        }
     }
     out
 }
@@ -464,7 +536,7 @@ pub fn run(id: &str, tier: Tier, replay: Option<&str>) -> i32 {
         "C09" => {
             let mut v = ebnf_space(tier, false);
             v.extend(ebnf_space(tier, true));
-            (v, format!("every EBNF body of size <= {} (nesting depth <= 2..3, 1-3 alternatives, empty alternatives, optional second non-terminal from a menu, also named like parol's helper non-terminals {:?}), for both grammar types; oracle: L<={n} of every user non-terminal in the canonicalized Cfg equals L<={n} of the harness tree. Non-trivial = at least one helper non-terminal introduced.", tier.pick(5, 6), HELPER_NAMES))
+            (v, format!("every EBNF body of size <= {} (nesting depth <= 2..3, 1-3 alternatives, empty alternatives, optional second non-terminal from a menu, also named like parol's helper non-terminals {:?}), for both grammar types; oracle: L<={n} of every user non-terminal in the canonicalized Cfg equals L<={n} of the harness tree. Non-trivial = at least one helper non-terminal introduced.", tier.pick(6, 7), HELPER_NAMES))
         }
         "C10" => {
             let mut v = enum_bnf(&bsp, false);
@@ -480,8 +552,9 @@ pub fn run(id: &str, tier: Tier, replay: Option<&str>) -> i32 {
                     }
                 }
             }
+            v.extend(prefix_group_grammars(tier));
             v.extend(ebnf_space(tier, false));
-            (v, format!("every productive and reachable canonical BNF grammar of {bsp:?} (left-recursive ones included; also with the second non-terminal named SSuffix/SSuffix0/SSuffix1) and every canonicalized EBNF body of the C09 space; left_factor run under a 20 s watchdog; oracle: L<={n} of every original non-terminal unchanged, no two alternatives of one non-terminal start with an equal Symbol. Non-trivial = left factoring changed the grammar."))
+            (v, format!("every productive and reachable canonical BNF grammar of {bsp:?} (left-recursive ones included; plus the prefix-group family: S with 2-3 groups of 2-3 alternatives sharing a first terminal, suffixes from a menu incl. the empty one and a second non-terminal named A / SSuffix / SSuffix0 / SSuffix1; also with the second non-terminal named SSuffix/SSuffix0/SSuffix1) and every canonicalized EBNF body of the C09 space; left_factor run under a 20 s watchdog; oracle: L<={n} of every original non-terminal unchanged, no two alternatives of one non-terminal start with an equal Symbol. Non-trivial = left factoring changed the grammar."))
         }
         "C11" => {
             let v = enum_bnf(&bsp, false);
